@@ -422,9 +422,26 @@ def sub_operator_family(ctx):
     fallback = lambda: pp.Regex(r"(?s).*")
     for lname, mk, prefix in lefts:
         for rname, mkr in rights:
-            for form in ("sub", "sub-then-add", "in-group", "rsub"):
+            for form in ("sub", "sub-then-add", "in-group", "rsub", "forward-late", "forward-redefined", "forward-printed"):
                 try:
-                    if form == "sub":
+                    if form == "forward-late":
+                        # the Forward was streamlined while still empty; the body arrives afterwards
+                        seq = pp.Forward()
+                        seq.streamline()
+                        seq <<= mk() - mkr()
+                    elif form == "forward-redefined":
+                        seq = pp.Forward()
+                        seq <<= pp.Literal("\x01")
+                        try:
+                            seq.parse_string("\x01")
+                        except pp.ParseBaseException:
+                            pass
+                        seq <<= mk() - mkr()
+                    elif form == "forward-printed":
+                        seq = pp.Forward()
+                        str(pp.DelimitedList(seq)), repr(seq | "x")
+                        seq <<= mk() - mkr()
+                    elif form == "sub":
                         seq = mk() - mkr()
                     elif form == "sub-then-add":
                         seq = mk() - mkr() + "."
